@@ -6,7 +6,7 @@
    The growth policy that decides the sizes asked for is C08's capacity model (VecCap.v).
    PARTIAL: iterator size hints and the helpers built on top are exercised on the implementation. *)
 From Coq Require Import ZArith List.
-From BS Require Import Word BumpSpec ChunkSpec Arena ArenaInv ArenaExt ArenaInv2 ArenaFill.
+From BS Require Import Word BumpSpec ChunkSpec Arena ArenaInv ArenaExt ArenaInv2 ArenaFill ArenaRegrow.
 Import ListNotations.
 Open Scope Z_scope.
 
@@ -94,6 +94,43 @@ Proof. exact fill_sequence_later_chunks_empty. Qed.
 Theorem C15_fresh_chunk_is_empty : forall c ch, fresh c ch -> allocated_in c ch = 0.
 Proof. exact fresh_empty. Qed.
 
+(* "even when filling had to continue in a bigger chunk": a vector whose capacity is the whole rest of
+   its chunk cannot be regrown inside that chunk — the bigger range lies in another chunk — … *)
+Theorem C15_regrow_leaves_chunk :
+  forall c ch es ea cap st en newcap,
+  pow2 ea -> 0 < es -> (ea | es) ->
+  chunk_prepare c ch (es * cap) ea = Some (st, en) ->
+  (en - st) / es < newcap ->
+  chunk_prepare c ch (es * newcap) ea = None.
+Proof. exact regrow_leaves_chunk. Qed.
+
+(* … whereas after map_in_place to a smaller element type (capacity re-expressed: never more bytes
+   than before, possibly fewer than the chunk offers) the same chunk can serve the bigger request
+   with a range that OVERLAPS the old buffer (computed state; genuine defect 8: the copy was a
+   copy_nonoverlapping) … *)
+Theorem C15_reshape_inside :
+  forall cap ts us, 0 <= cap -> 0 < us -> us <= ts ->
+  reshape_capacity cap ts us * us <= cap * ts /\ cap <= reshape_capacity cap ts us.
+Proof. exact reshape_inside. Qed.
+
+Theorem C15_regrow_same_chunk_overlaps :
+  o_res (snd RegrowExample.first) = RRange 66040 2 /\
+  reshape_capacity 2 4 1 = 8 /\
+  o_res (snd RegrowExample.second) = RRange 66037 11 /\
+  cur (fst RegrowExample.second) = Cur 0 /\
+  ranges_overlap 66040 8 66037 11 = true.
+Proof. exact RegrowExample.regrow_same_chunk_overlaps. Qed.
+
+(* … and the copy the repaired code makes (memmove) delivers the elements intact whatever the
+   overlap and changes no byte outside the new range *)
+Theorem C15_regrow_copy_keeps_contents :
+  forall (m : memory) src dst bytes i, 0 <= i < bytes -> mem_copy m src dst bytes (dst + i) = m (src + i).
+Proof. exact regrow_copy_keeps_contents. Qed.
+
+Theorem C15_regrow_copy_frame :
+  forall (m : memory) src dst bytes x, ~ (dst <= x < dst + bytes) -> mem_copy m src dst bytes x = m x.
+Proof. exact regrow_copy_frame. Qed.
+
 Print Assumptions C15_prepare_keeps_positions.
 Print Assumptions C15_prepare_preserves_invariant.
 Print Assumptions C15_commit_preserves_invariant.
@@ -105,3 +142,8 @@ Print Assumptions C15_fill_sequence_keeps.
 Print Assumptions C15_fill_sequence_keeps_positions.
 Print Assumptions C15_fill_sequence_later_chunks_empty.
 Print Assumptions C15_fresh_chunk_is_empty.
+Print Assumptions C15_regrow_leaves_chunk.
+Print Assumptions C15_reshape_inside.
+Print Assumptions C15_regrow_same_chunk_overlaps.
+Print Assumptions C15_regrow_copy_keeps_contents.
+Print Assumptions C15_regrow_copy_frame.
